@@ -429,6 +429,7 @@ struct Stats {
     garbage_bits: u64,
     pairs: u64,
     equal_pairs: u64,
+    neighbours: u64,
     machine_runs: u64,
     prunes_some: u64,
     prunes_none: u64,
@@ -571,6 +572,58 @@ fn check_c11_pair(a: &Entry, b: &Entry) -> Result<bool, Viol> {
         }
     }
     Ok(same)
+}
+
+/// A value of the same type whose compact encoding is one edit away from `e`'s.
+fn neighbour(e: &Entry, r: &mut Rng) -> Option<Entry> {
+    let mut c = Vec::new();
+    compact(&e.mv, &e.mt, &mut c);
+    if c.len() > 1 << 14 {
+        return None;
+    }
+    let l = c.len();
+    // positions: anywhere, near the end, or at a byte boundary
+    let pos = |r: &mut Rng, upto: usize| -> usize {
+        if upto == 0 {
+            return 0;
+        }
+        match r.below(3) {
+            0 => r.usize_below(upto + 1).min(upto),
+            1 => upto - r.usize_below(upto.min(9) + 1).min(upto),
+            _ => (8 * r.usize_below(upto / 8 + 1)).min(upto),
+        }
+    };
+    match r.below(4) {
+        0 => {
+            let p = pos(r, l);
+            c.insert(p, r.bool());
+        }
+        1 => {
+            if l == 0 {
+                return None;
+            }
+            let p = pos(r, l - 1);
+            c.remove(p);
+        }
+        2 => {
+            if l == 0 {
+                return None;
+            }
+            let p = pos(r, l - 1);
+            c[p] = !c[p];
+        }
+        _ => {
+            let p = pos(r, l);
+            c.insert(p, false);
+        }
+    }
+    // let the decoder run on: pad with zeroes
+    let pad = width(&e.mt) + 8;
+    c.extend(std::iter::repeat(false).take(pad));
+    let mut at = 0;
+    let mv = decode_compact(&c, &mut at, &e.mt)?;
+    let value = build_value(&mv, &e.mt, r.byte(), r);
+    Some(Entry { value, mv, mt: e.mt.clone(), route: "neighbour" })
 }
 
 /// Run `prog : source -> target` on the real machine.
@@ -966,6 +1019,18 @@ fn exec(plan: &Plan, mode: Mode, st: &mut Stats) -> Result<(), Viol> {
                     if check_c11_pair(&ne, &twin)? {
                         st.equal_pairs += 1;
                     }
+                    // near neighbours: same type, compact encoding one edit away (a bit inserted,
+                    // deleted or flipped, biased to byte boundaries and the tail), so that encodings
+                    // differing only in length by one bit or in their last partial byte meet
+                    for _ in 0..3 {
+                        if let Some(nb) = neighbour(&ne, &mut r) {
+                            st.pairs += 1;
+                            st.neighbours += 1;
+                            if check_c11_pair(&ne, &nb)? {
+                                st.equal_pairs += 1;
+                            }
+                        }
+                    }
                     let k = pool.len().min(6);
                     for _ in 0..k {
                         let o = &pool[r.usize_below(pool.len())];
@@ -1335,6 +1400,7 @@ impl ValSim {
         out.count("machine_runs", st.machine_runs);
         out.count("pairs_compared", st.pairs);
         out.count("pairs_equal", st.equal_pairs);
+        out.count("pairs_neighbour", st.neighbours);
         out.count("prune_some", st.prunes_some);
         out.count("prune_none", st.prunes_none);
         out.count("prune_incompatible_target_but_pathwise_value", st.prunes_incompatible_but_some);
@@ -1375,7 +1441,7 @@ impl Engine for ValSim {
             self.property_id(),
             match self.0 {
                 Mode::C10 => "layout, accessors, decoders and prune against the algebraic model (never uses == on Value)",
-                Mode::C11 => "== / Hash / cmp on Value and Word against model equality, for every new value vs a clean constructor twin and a pool sample, all pairs at the end, transitivity on sampled triples",
+                Mode::C11 => "== / Hash / cmp on Value and Word against model equality, for every new value vs a clean constructor twin, three near neighbours (same type, compact encoding one bit edit away) and a pool sample, all pairs at the end, transitivity on sampled triples",
             }
         )
     }
@@ -1458,6 +1524,7 @@ impl Engine for ValSim {
         ];
         if self.0 == Mode::C11 {
             v.push("pairs_equal");
+            v.push("pairs_neighbour");
         } else {
             v.push("prune_some");
             v.push("prune_none");
